@@ -11,6 +11,7 @@ import (
 	"io"
 	"reflect"
 	"strconv"
+	"strings"
 
 	"github.com/cockroachdb/redact"
 	"github.com/cockroachdb/redact/interfaces"
@@ -483,6 +484,19 @@ func (e *env) safeStep(st *Step, w redact.SafeWriter, f fmt.State, verb rune) {
 		w.SafeBytes(interfaces.SafeBytes(st.S))
 	case "pr":
 		w.Print(e.buildAll(st.V)...)
+	case "prr":
+		// user code that recovers from whatever propagates out of the
+		// nested Print (a nested panic), and carries on
+		func() {
+			defer func() {
+				if r := recover(); r != nil {
+					if s, ok := r.(string); ok && strings.HasPrefix(s, "harness:") {
+						panic(r)
+					}
+				}
+			}()
+			w.Print(e.buildAll(st.V)...)
+		}()
 	case "pf":
 		w.Printf(string(st.S), e.buildAll(st.V)...)
 	case "us":
